@@ -109,11 +109,11 @@ def check(ctx):
     sends = [(b, t) for b, t in calls if cname(t) == HT + '::send']
     recvs = [(b, t) for b, t in calls if cname(t) == HT + '::recv']
     replies = [(b, t) for b, t in calls if cname(t) == 'tokio::sync::oneshot::Sender::send']
-    good = len(sends) == 1 and len(replies) >= 1
+    good = len(sends) >= 1 and len(replies) >= 1
     if good:
         for b, t in replies:
             vb = flow.backward([op_local(t['args'][1])])
-            good = good and sends[0][1]['dest']['l'] in vb and rcc.dominates(sends[0][0], b)
+            good = good and any(sd['dest']['l'] in vb and rcc.dominates(sbk, b) for sbk, sd in sends)
             # no other producer of HLCTimestamp feeds the reply
             others = [tt for bb, tt in calls if tt['dest']['l'] in vb and cname(tt) and cname(tt).startswith('datacake_crdt::') and cname(tt) != HT + '::send']
             good = good and not others
@@ -158,6 +158,46 @@ def check(ctx):
                '%s hands its event to the actor with %s (waits for queue space)' % (who, sorted({last_seg(cname(t)) for bb, t in snd})) if snd and not bad_s else
                '%s uses %s: when the actor\'s queue is full the event is dropped, so a remote stamp that was "registered" is never merged and a later '
                'get_time can return a smaller stamp' % (who, bad_s or 'no channel send'))
+    # every dequeue site hands a Register event to clock.recv: no site may take an event off the queue and drop it
+    deq = [(b, t) for b, t in calls if cname(t) and cname(t).startswith('flume::') and last_seg(cname(t)) in ('recv_async', 'try_recv', 'recv', 'recv_timeout', 'recv_deadline')]
+    ev = facts.adts.get(N + 'Event')
+    reg_idx = [i for i, v in enumerate(ev['variants']) if v['name'] == 'Register'][0] if ev else None
+    recv_blocks = [b for b, t in recvs]
+    for i, (db, dt) in enumerate(deq):
+        fw = flow.forward([dt['dest']['l']], stop=[0])
+        handled = None
+        for sb, blk in enumerate(rcc.blocks):
+            t = blk['t']
+            if t['k'] != 'switch' or blk['cleanup'] or sb not in rcc.reachable_from([db]):
+                continue
+            dl = op_local(t['discr'])
+            for _b, _j, s in rcc.assigns():
+                if s['lhs']['l'] == dl and s['rv']['k'] == 'discr' and rcc.local_ty(s['rv']['pl']['l']) == N + 'Event' and (
+                        s['rv']['pl']['l'] in fw or any(isinstance(e, dict) and 'f' in e for e in s['rv']['pl']['p']) and s['rv']['pl']['l'] in fw):
+                    tm = {int(v): tb for v, tb in t['targets']}
+                    tgt = tm.get(reg_idx, t['otherwise'])
+                    stops = [b for b, _t in deq] + rcc.return_blocks()
+                    ok_here = rcc.must_pass([tgt], recv_blocks, [x for x in stops])
+                    handled = ok_here if handled is None else (handled and ok_here)
+        if handled is None:
+            # the event is matched through a nested pattern on the dequeue result itself (e.g. `while let Ok(Event::Get(tx)) = ..`)
+            for sb, blk in enumerate(rcc.blocks):
+                t = blk['t']
+                if t['k'] != 'switch' or blk['cleanup'] or sb not in rcc.reachable_from([db]):
+                    continue
+                dl = op_local(t['discr'])
+                for _b, _j, s in rcc.assigns():
+                    if s['lhs']['l'] == dl and s['rv']['k'] == 'discr' and s['rv']['pl']['l'] in fw and N + 'Event' in rcc.local_ty(s['rv']['pl']['l']) \
+                            and any(isinstance(e, dict) and ('d' in e or 'f' in e) for e in s['rv']['pl']['p']):
+                        tm = {int(v): tb for v, tb in t['targets']}
+                        tgt = tm.get(reg_idx, t['otherwise'])
+                        stops = [b for b, _t in deq] + rcc.return_blocks()
+                        handled = rcc.must_pass([tgt], recv_blocks, stops)
+        ctx.ob('C11.K3', 'dequeue#%d|register-handled' % i, bool(handled), site(rcc, dt['cs']),
+               'a Register event taken off the queue here always reaches clock.recv' if handled else
+               'an event taken off the queue here can be a Register that is dropped without reaching clock.recv (e.g. a drain loop that only matches Get): '
+               'the registered remote stamp is never merged')
+    ctx.floor('C11.K3', 'dequeue sites of the clock actor', len(deq), 1)
     good = len(recvs) == 1
     if good:
         ab = flow.backward([op_local(recvs[0][1]['args'][1])])
